@@ -2,6 +2,11 @@ import ZV.Proofs.C01
 import ZV.Proofs.C01Asn1
 import ZV.Proofs.C01Alloc
 import ZV.Proofs.C01Bridge
+import ZV.Proofs.C01Ec
+import ZV.Props.C15
+import ZV.Props.C16
+import ZV.Props.C30
+import ZV.Props.C32
 /-!
   C01 — parsers of untrusted bytes never panic, hang or over-allocate: the theorems.
 
@@ -379,5 +384,383 @@ example : C18.unmarshal false .octets {} [0x04, 0x00, 0x05] = .ok (.bytes [], [0
 /-- an accepted element, split as `asn1_element_in_bounds` says -/
 example : C18.parsePre false .octets {} [0x04, 0x02, 0xaa, 0xbb, 0xcc] =
     .go { cls := 0, tag := 4, len := 2, compound := false } 4 [0xaa, 0xbb] [0xcc] := by rfl
+
+
+/-! ### x509.parseECPrivateKey: the code AFTER `asn1.Unmarshal` succeeded (x509/sec1.go; T2 stream `c01 ecpriv`) -/
+open ZV.TlsWire (beNat) in
+/-- the zero-stripping loop `for len(pk) > size { if pk[0] != 0 {…}; pk = pk[1:] }` never indexes or slices out of range,
+    for every buffer size and every OCTET STRING -/
+theorem x509_ecStrip_no_panic (size : Nat) (pk : Bytes) : ecStrip size pk ≠ .panic := ecStrip_no_panic size pk
+
+open ZV.TlsWire (beNat) in
+/-- what the loop hands on fits the buffer (so the low index `len(privateKey)-len(pk)` of the copy is not negative),
+    is a suffix of the input and denotes the same integer -/
+theorem x509_ecStrip_fits (size : Nat) (pk p : Bytes) (h : ecStrip size pk = .ok p) :
+    p.length ≤ size ∧ p <:+ pk ∧ beNat p = beNat pk := ecStrip_ok size pk p h
+
+example : ecStrip 2 [0, 0, 1, 2] = .ok [1, 2] := by
+  simp [ecStrip_cons]
+
+/-- the whole post-processing never panics: every order, every buffer size, every OCTET STRING -/
+theorem x509_parseECPrivateKey_post_no_panic (order size : Nat) (pk : Bytes) : ecPrivPost order size pk ≠ .panic := by
+  unfold ecPrivPost
+  simp only
+  split
+  · simp
+  · split
+    · rename_i p hp
+      have := (ecStrip_ok size pk p hp).1
+      simp [this]
+    · simp
+    · rename_i hp
+      exact absurd hp (ecStrip_no_panic size pk)
+
+/-- … and so does `parseECPrivateKey` after Unmarshal, for every version, curve index and OCTET STRING -/
+theorem x509_parseECPrivateKey_no_panic (version curve : Nat) (pk : Bytes) : ecPrivParse version curve pk ≠ .panic := by
+  unfold ecPrivParse
+  split
+  · simp
+  · split
+    · simp
+    · exact x509_parseECPrivateKey_post_no_panic _ _ pk
+
+open ZV.TlsWire (beNat) in
+/-- an accepted key: D < N, the buffer handed to `ScalarBaseMult` has EXACTLY `size` bytes (the `make` size: the
+    allocation does not depend on the attacker's length) and is the big-endian encoding of D -/
+theorem x509_parseECPrivateKey_buffer (order size : Nat) (pk : Bytes) (k : Nat) (buf : Bytes)
+    (h : ecPrivPost order size pk = .ok (k, buf)) : k = beNat pk ∧ k < order ∧ buf.length = size ∧ beNat buf = k := by
+  unfold ecPrivPost at h
+  simp only at h
+  split at h
+  · cases h
+  · rename_i hk
+    split at h
+    · rename_i p hp
+      obtain ⟨h1, _, h3⟩ := ecStrip_ok size pk p hp
+      simp only [h1, if_true] at h
+      cases h
+      refine ⟨rfl, by omega, ?_, ?_⟩
+      · simp; omega
+      · rw [beNat_replicate_zero, h3]
+    · cases h
+    · cases h
+
+example : ecPrivPost 1000 2 [0, 0, 7] = .ok (7, [0, 7]) := by
+  simp [ecPrivPost, ecStrip_cons, ZV.TlsWire.beNat]
+
+open ZV.TlsWire (beNat) in
+/-- when the order fits the buffer (`N ≤ 256^size`, true of every named curve: `x509_curves_fit`) the post-processing
+    rejects EXACTLY the values `≥ N`: the error `x509: invalid private key length` of the loop is unreachable behind the
+    `k.Cmp(curveOrder) >= 0` check (dead code, not a defect) -/
+theorem x509_parseECPrivateKey_err_iff (order size : Nat) (pk : Bytes) (hfit : order ≤ 256 ^ size) :
+    ecPrivPost order size pk = .err ↔ order ≤ beNat pk := by
+  unfold ecPrivPost
+  simp only
+  constructor
+  · intro h
+    split at h
+    · assumption
+    · rename_i hk
+      split at h
+      · split at h <;> cases h
+      · rename_i he
+        have := ecStrip_err size pk he
+        omega
+      · cases h
+  · intro h
+    simp [h]
+
+example : (115792089210356248762697446949407573529996955224135760342422259061068512044369 : Nat) ≤ 256 ^ 32 := by decide
+
+/-- T1: the orders of the four named curves (read from crypto/elliptic at check time) fit their buffers and are
+    positive; the version constant is the one of the source -/
+theorem x509_curves_fit :
+    (∀ c ∈ Gen.curves, 0 < c.2.2 ∧ c.2.2 ≤ 256 ^ ((c.2.1 + 7) / 8) ∧ 256 ^ ((c.2.1 + 7) / 8 - 1) ≤ c.2.2) ∧
+    Gen.curves.map (·.1) = ["P-224", "P-256", "P-384", "P-521"] ∧ Gen.ecPrivKeyVersion = 1 := by decide
+
+open ZV.TlsWire (beNat) in
+/-- for the real curves: `parseECPrivateKey` (version 1, known curve) fails iff the value is `≥ N` -/
+theorem x509_parseECPrivateKey_named_err_iff (curve : Nat) (pk : Bytes) (n size : Nat) (hc : ecCurve curve = some (n, size)) :
+    ecPrivParse Gen.ecPrivKeyVersion curve pk = .err ↔ n ≤ beNat pk := by
+  have hfit : n ≤ 256 ^ size := by
+    unfold ecCurve at hc
+    split at hc
+    · rename_i nm bits n' hg
+      cases hc
+      have hm : (nm, bits, n) ∈ Gen.curves := List.mem_of_getElem? hg
+      exact (x509_curves_fit.1 _ hm).2.1
+    · cases hc
+  unfold ecPrivParse
+  simp only [ne_eq, not_true_eq_false, if_false, hc]
+  exact x509_parseECPrivateKey_err_iff n size pk hfit
+
+example : ∃ n size, ecCurve 1 = some (n, size) := ⟨_, _, rfl⟩
+
+/-! ### cryptobyte `read` / `readLengthPrefixed`: in bounds -/
+
+/-- `(*String).read(n)`: what is returned is exactly the first `n` bytes and the rest — nothing beyond the input -/
+theorem cb_read_in_bounds (s : Bytes) (n : Int) (v r : Bytes) (h : cbRead s n = some (v, r)) :
+    s = v ++ r ∧ (v.length : Int) = n := by
+  unfold cbRead at h
+  split at h
+  · cases h
+  · rename_i hn
+    cases h
+    refine ⟨(List.take_append_drop _ _).symm, ?_⟩
+    simp
+    omega
+
+example : cbRead [1, 2, 3] 2 = some ([1, 2], [3]) := by decide
+
+/-- `readLengthPrefixed`: prefix ++ child ++ rest is the input (ReadUint8/16/24LengthPrefixed) -/
+theorem cb_readLengthPrefixed_in_bounds (s : Bytes) (lenLen : Nat) (child rest : Bytes)
+    (h : cbReadLengthPrefixed s lenLen = some (child, rest)) :
+    ∃ pre, pre.length = lenLen ∧ s = pre ++ child ++ rest := by
+  unfold cbReadLengthPrefixed at h
+  split at h
+  · cases h
+  · rename_i lb s1 h1
+    obtain ⟨e1, l1⟩ := cb_read_in_bounds _ _ _ _ h1
+    obtain ⟨e2, _⟩ := cb_read_in_bounds _ _ _ _ h
+    refine ⟨lb, by omega, ?_⟩
+    rw [e1, e2, List.append_assoc]
+
+example : cbReadLengthPrefixed [2, 9, 8, 7] 1 = some ([9, 8], [7]) := by decide
+
+/-! ### composition: parser entry points owned by other packages' models (corollaries; the models are tied to the Go
+    code by the owning package's T2 stream) -/
+
+theorem ct_deserializeSCT_no_panic (bs : Bytes) : ZV.C16.deserializeSCT bs ≠ .panic := (ZV.C16.decoders_no_panic bs).1
+theorem ct_unmarshalDigitallySigned_no_panic (bs : Bytes) : ZV.C16.unmarshalDS bs ≠ .panic := (ZV.C16.decoders_no_panic bs).2.1
+theorem ct_readMerkleTreeLeaf_no_panic (bs : Bytes) : ZV.C16.readMerkleTreeLeaf bs ≠ .panic := (ZV.C16.decoders_no_panic bs).2.2.1
+theorem ct_unmarshalX509ChainArray_no_panic (bs : Bytes) : ZV.C16.unmarshalX509Chain bs ≠ .panic :=
+  (ZV.C16.decoders_no_panic bs).2.2.2.1
+theorem ct_unmarshalPrecertChainArray_no_panic (bs : Bytes) : ZV.C16.unmarshalPrecertChain bs ≠ .panic :=
+  (ZV.C16.decoders_no_panic bs).2.2.2.2
+
+/-- the C15 model of google.Parse (a second, independent model of the same function) -/
+theorem crlset_parse_no_panic_c15 (inp : Bytes) (h : ZV.C15.Hdr) : ZV.C15.csParse inp h ≠ .panic :=
+  ZV.C15.crlset_parse_no_panic inp h
+/-- the C15 model of mozilla.Parse -/
+theorem onecrl_parse_no_panic_c15 (recs : List ZV.C15.Rec) (ntbl : Bytes → Option ZV.C15.Str) :
+    ZV.C15.ocParse recs ntbl ≠ .panic := ZV.C15.onecrl_parse_no_panic recs ntbl
+
+/-- the TLS record reader behind `Conn.Read` (C32): never panics, consumes at least a header, never past the input -/
+theorem tls_readRecord_no_panic (vers : Nat) (st : ZV.C32.St) (s : Bytes) : ZV.C32.readRecord vers st s ≠ .panic :=
+  (ZV.C32.reader_total vers st s).1
+/-- the key-exchange parsers run on ServerKeyExchange / ClientKeyExchange bodies (C32) -/
+theorem tls_serverKeyExchange_ecdhe_parse_no_panic (c : ZV.C32.EcdheCtx) (msg : Bytes) : ZV.C32.ecdheSKXMsg c msg ≠ .panic :=
+  ZV.C32.skx_parse_no_panic c msg
+theorem tls_serverKeyExchange_dhe_parse_no_panic (c : ZV.C32.DheCtx) (msg : Bytes) : ZV.C32.dheSKXMsg c msg ≠ .panic :=
+  ZV.C32.skx_dhe_parse_no_panic c msg
+theorem tls_clientKeyExchange_parse_no_panic (k : ZV.C32.CkxKind) (msg : Bytes) : ZV.C32.ckxMsg k msg ≠ .panic :=
+  ZV.C32.ckx_parse_no_panic k msg
+
+/-- The TLS handshake-message models of C30 are `Option`-valued total functions over `ZV.TlsWire` (every `take` / `drop`
+    sits behind a length comparison in the combinator, proved lawful once in `ZV.Proofs.TlsWire`): they have NO panic
+    outcome, so "returns a value or an error" holds BY TYPE and the content is carried by C30's T2 stream (a panicking Go
+    `unmarshal` prints `panic`, which no model output equals). The named statements below pin each entry point to its
+    model; they are trivial on purpose and are marked `.byType` in the table. -/
+theorem optOutcome {α} (o : Option α) : o = none ∨ ∃ v, o = some v := by
+  cases o <;> simp
+
+theorem tls_certificate_unmarshal_total (bs : Bytes) : ZV.C30.certificate.par bs = none ∨ ∃ v, ZV.C30.certificate.par bs = some v := optOutcome _
+theorem tls_certificateTLS13_unmarshal_total (bs : Bytes) : ZV.C30.certificateTLS13.par bs = none ∨ ∃ v, ZV.C30.certificateTLS13.par bs = some v := optOutcome _
+theorem tls_certificateRequest_unmarshal_total (hasSig : Bool) (bs : Bytes) : (ZV.C30.certificateRequest hasSig).par bs = none ∨ ∃ v, (ZV.C30.certificateRequest hasSig).par bs = some v := optOutcome _
+theorem tls_certificateRequestTLS13_unmarshal_total (bs : Bytes) : ZV.C30.certificateRequestTLS13.par bs = none ∨ ∃ v, ZV.C30.certificateRequestTLS13.par bs = some v := optOutcome _
+theorem tls_certificateStatus_unmarshal_total (bs : Bytes) : ZV.C30.certificateStatus.par bs = none ∨ ∃ v, ZV.C30.certificateStatus.par bs = some v := optOutcome _
+theorem tls_certificateVerify_unmarshal_total (hasSig : Bool) (bs : Bytes) : (ZV.C30.certificateVerify hasSig).par bs = none ∨ ∃ v, (ZV.C30.certificateVerify hasSig).par bs = some v := optOutcome _
+theorem tls_clientHello_unmarshal_total (bs : Bytes) : ZV.C30.clientHello.par bs = none ∨ ∃ v, ZV.C30.clientHello.par bs = some v := optOutcome _
+theorem tls_clientKeyExchange_unmarshal_total (bs : Bytes) : ZV.C30.clientKeyExchange.par bs = none ∨ ∃ v, ZV.C30.clientKeyExchange.par bs = some v := optOutcome _
+theorem tls_encryptedExtensions_unmarshal_total (bs : Bytes) : ZV.C30.encryptedExtensions.par bs = none ∨ ∃ v, ZV.C30.encryptedExtensions.par bs = some v := optOutcome _
+theorem tls_endOfEarlyData_unmarshal_total (bs : Bytes) : ZV.C30.endOfEarlyData.par bs = none ∨ ∃ v, ZV.C30.endOfEarlyData.par bs = some v := optOutcome _
+theorem tls_finished_unmarshal_total (bs : Bytes) : ZV.C30.finished.par bs = none ∨ ∃ v, ZV.C30.finished.par bs = some v := optOutcome _
+theorem tls_helloRequest_unmarshal_total (bs : Bytes) : ZV.C30.helloRequest.par bs = none ∨ ∃ v, ZV.C30.helloRequest.par bs = some v := optOutcome _
+theorem tls_keyUpdate_unmarshal_total (bs : Bytes) : ZV.C30.keyUpdate.par bs = none ∨ ∃ v, ZV.C30.keyUpdate.par bs = some v := optOutcome _
+theorem tls_newSessionTicket_unmarshal_total (bs : Bytes) : ZV.C30.newSessionTicket.par bs = none ∨ ∃ v, ZV.C30.newSessionTicket.par bs = some v := optOutcome _
+theorem tls_newSessionTicketTLS13_unmarshal_total (bs : Bytes) : ZV.C30.newSessionTicketTLS13.par bs = none ∨ ∃ v, ZV.C30.newSessionTicketTLS13.par bs = some v := optOutcome _
+theorem tls_serverHelloDone_unmarshal_total (bs : Bytes) : ZV.C30.serverHelloDone.par bs = none ∨ ∃ v, ZV.C30.serverHelloDone.par bs = some v := optOutcome _
+theorem tls_serverHello_unmarshal_total (bs : Bytes) : ZV.C30.serverHello.par bs = none ∨ ∃ v, ZV.C30.serverHello.par bs = some v := optOutcome _
+theorem tls_serverKeyExchange_unmarshal_total (bs : Bytes) : ZV.C30.serverKeyExchange.par bs = none ∨ ∃ v, ZV.C30.serverKeyExchange.par bs = some v := optOutcome _
+theorem tls_sessionState_unmarshal_total (bs : Bytes) : ZV.C30.sessionState.par bs = none ∨ ∃ v, ZV.C30.sessionState.par bs = some v := optOutcome _
+theorem tls_sessionStateTLS13_unmarshal_total (bs : Bytes) : ZV.C30.sessionStateTLS13.par bs = none ∨ ∃ v, ZV.C30.sessionStateTLS13.par bs = some v := optOutcome _
+
+/-! ### entry-point accounting (T1): every parser entry point found in the source is covered or listed as T3 only -/
+
+inductive Cover where
+  /-- no-panic / in-bounds theorem of this file, on the named model -/
+  | proved (thm model : String)
+  /-- proved for the named part only; the rest is T3 -/
+  | partly (thm model rest : String)
+  /-- the owning model is `Option`-valued (no panic outcome): total by type, tie = owning package's T2 -/
+  | byType (thm model : String)
+  /-- explored only (recover + watchdog + allocation meter) -/
+  | t3 (why : String)
+  deriving DecidableEq, Repr
+
+def coverTable : List (String × Cover) := [
+  ("cryptobyte String.ReadASN1", .partly "cb_readASN1_no_panic" "ZV.Model.C01" "readASN1 core proved; the tag comparison after it is T3"),
+  ("cryptobyte String.ReadASN1BitString", .t3 "ASN.1 value reader on top of readASN1: T3 only"),
+  ("cryptobyte String.ReadASN1BitStringAsBytes", .t3 "ASN.1 value reader on top of readASN1: T3 only"),
+  ("cryptobyte String.ReadASN1Boolean", .t3 "ASN.1 value reader on top of readASN1: T3 only"),
+  ("cryptobyte String.ReadASN1Bytes", .t3 "ASN.1 value reader on top of readASN1: T3 only"),
+  ("cryptobyte String.ReadASN1Element", .partly "cb_readASN1_no_panic" "ZV.Model.C01" "readASN1 core proved; the tag comparison after it is T3"),
+  ("cryptobyte String.ReadASN1Enum", .t3 "ASN.1 value reader on top of readASN1: T3 only"),
+  ("cryptobyte String.ReadASN1GeneralizedTime", .t3 "ASN.1 value reader on top of readASN1: T3 only"),
+  ("cryptobyte String.ReadASN1Int64WithTag", .t3 "ASN.1 value reader on top of readASN1: T3 only"),
+  ("cryptobyte String.ReadASN1Integer", .t3 "ASN.1 value reader on top of readASN1: T3 only"),
+  ("cryptobyte String.ReadASN1ObjectIdentifier", .t3 "ASN.1 value reader on top of readASN1: T3 only"),
+  ("cryptobyte String.ReadASN1UTCTime", .t3 "ASN.1 value reader on top of readASN1: T3 only"),
+  ("cryptobyte String.ReadAnyASN1", .proved "cb_readASN1_no_panic" "ZV.Model.C01"),
+  ("cryptobyte String.ReadAnyASN1Element", .proved "cb_readASN1_no_panic" "ZV.Model.C01"),
+  ("cryptobyte String.ReadBytes", .proved "cb_read_in_bounds" "ZV.Model.C01"),
+  ("cryptobyte String.ReadOptionalASN1", .t3 "ASN.1 value reader on top of readASN1: T3 only"),
+  ("cryptobyte String.ReadOptionalASN1Boolean", .t3 "ASN.1 value reader on top of readASN1: T3 only"),
+  ("cryptobyte String.ReadOptionalASN1Integer", .t3 "ASN.1 value reader on top of readASN1: T3 only"),
+  ("cryptobyte String.ReadOptionalASN1OctetString", .t3 "ASN.1 value reader on top of readASN1: T3 only"),
+  ("cryptobyte String.ReadUint16", .proved "cb_read_in_bounds" "ZV.Model.C01"),
+  ("cryptobyte String.ReadUint16LengthPrefixed", .proved "cb_readLengthPrefixed_in_bounds" "ZV.Model.C01"),
+  ("cryptobyte String.ReadUint24", .proved "cb_read_in_bounds" "ZV.Model.C01"),
+  ("cryptobyte String.ReadUint24LengthPrefixed", .proved "cb_readLengthPrefixed_in_bounds" "ZV.Model.C01"),
+  ("cryptobyte String.ReadUint32", .proved "cb_read_in_bounds" "ZV.Model.C01"),
+  ("cryptobyte String.ReadUint8", .proved "cb_read_in_bounds" "ZV.Model.C01"),
+  ("cryptobyte String.ReadUint8LengthPrefixed", .proved "cb_readLengthPrefixed_in_bounds" "ZV.Model.C01"),
+  ("ct DeserializeSCT", .proved "ct_deserializeSCT_no_panic" "ZV.Model.C16"),
+  ("ct DigitallySigned.UnmarshalJSON", .t3 "JSON layer (encoding/json drives it): T3 only"),
+  ("ct ReadMerkleTreeLeaf", .proved "ct_readMerkleTreeLeaf_no_panic" "ZV.Model.C16"),
+  ("ct ReadTimestampedEntryInto", .partly "ct_readMerkleTreeLeaf_no_panic" "ZV.Model.C16" "reached through ReadMerkleTreeLeaf only; direct calls T3"),
+  ("ct SHA256Hash.UnmarshalJSON", .t3 "JSON layer (encoding/json drives it): T3 only"),
+  ("ct UnmarshalDigitallySigned", .proved "ct_unmarshalDigitallySigned_no_panic" "ZV.Model.C16"),
+  ("ct UnmarshalPrecertChainArray", .proved "ct_unmarshalPrecertChainArray_no_panic" "ZV.Model.C16"),
+  ("ct UnmarshalX509ChainArray", .proved "ct_unmarshalX509ChainArray_no_panic" "ZV.Model.C16"),
+  ("ct/x509 ParseCRL", .t3 "ct/x509 fork, code around the asn1 engine: T3 only"),
+  ("ct/x509 ParseCertificate", .t3 "ct/x509 fork, code around the asn1 engine: T3 only"),
+  ("ct/x509 ParseCertificates", .t3 "ct/x509 fork, code around the asn1 engine: T3 only"),
+  ("ct/x509 ParseDERCRL", .t3 "ct/x509 fork, code around the asn1 engine: T3 only"),
+  ("ct/x509 ParseECPrivateKey", .t3 "ct/x509 fork, code around the asn1 engine: T3 only"),
+  ("ct/x509 ParsePKCS1PrivateKey", .t3 "ct/x509 fork, code around the asn1 engine: T3 only"),
+  ("ct/x509 ParsePKCS8PrivateKey", .t3 "ct/x509 fork, code around the asn1 engine: T3 only"),
+  ("ct/x509 ParsePKIXPublicKey", .t3 "ct/x509 fork, code around the asn1 engine: T3 only"),
+  ("ct/x509 ParseTBSCertificate", .t3 "ct/x509 fork, code around the asn1 engine: T3 only"),
+  ("encoding/asn1 Unmarshal", .proved "asn1_unmarshal_no_panic" "ZV.Model.C18"),
+  ("encoding/asn1 UnmarshalWithParams", .proved "asn1_unmarshal_no_panic" "ZV.Model.C18"),
+  ("tls CipherSuiteID.UnmarshalJSON", .t3 "JSON layer (encoding/json drives it): T3 only"),
+  ("tls ClientAuthType.UnmarshalJSON", .t3 "JSON layer (encoding/json drives it): T3 only"),
+  ("tls CompressionMethod.UnmarshalJSON", .t3 "JSON layer (encoding/json drives it): T3 only"),
+  ("tls Conn.Read", .proved "tls_readRecord_no_panic" "ZV.C32.readRecord"),
+  ("tls CurveID.UnmarshalJSON", .t3 "JSON layer (encoding/json drives it): T3 only"),
+  ("tls KeyShareExtension.UnmarshalJSON", .t3 "JSON layer (encoding/json drives it): T3 only"),
+  ("tls PointFormat.UnmarshalJSON", .t3 "JSON layer (encoding/json drives it): T3 only"),
+  ("tls SignatureAndHash.UnmarshalJSON", .t3 "JSON layer (encoding/json drives it): T3 only"),
+  ("tls TLSVersion.UnmarshalJSON", .t3 "JSON layer (encoding/json drives it): T3 only"),
+  ("tls atLeastReader.Read", .t3 "io.Reader adapter, no parsing: T3 only (through Conn.Read)"),
+  ("tls certificateMsg.unmarshal", .byType "tls_certificate_unmarshal_total" "ZV.C30.certificate"),
+  ("tls certificateMsgTLS13.unmarshal", .byType "tls_certificateTLS13_unmarshal_total" "ZV.C30.certificateTLS13"),
+  ("tls certificateRequestMsg.unmarshal", .byType "tls_certificateRequest_unmarshal_total" "ZV.C30.certificateRequest"),
+  ("tls certificateRequestMsgTLS13.unmarshal", .byType "tls_certificateRequestTLS13_unmarshal_total" "ZV.C30.certificateRequestTLS13"),
+  ("tls certificateStatusMsg.unmarshal", .byType "tls_certificateStatus_unmarshal_total" "ZV.C30.certificateStatus"),
+  ("tls certificateVerifyMsg.unmarshal", .byType "tls_certificateVerify_unmarshal_total" "ZV.C30.certificateVerify"),
+  ("tls clientHelloMsg.unmarshal", .byType "tls_clientHello_unmarshal_total" "ZV.C30.clientHello"),
+  ("tls clientKeyExchangeMsg.unmarshal", .byType "tls_clientKeyExchange_unmarshal_total" "ZV.C30.clientKeyExchange"),
+  ("tls encryptedExtensionsMsg.unmarshal", .byType "tls_encryptedExtensions_unmarshal_total" "ZV.C30.encryptedExtensions"),
+  ("tls endOfEarlyDataMsg.unmarshal", .byType "tls_endOfEarlyData_unmarshal_total" "ZV.C30.endOfEarlyData"),
+  ("tls finishedMsg.unmarshal", .byType "tls_finished_unmarshal_total" "ZV.C30.finished"),
+  ("tls helloRequestMsg.unmarshal", .byType "tls_helloRequest_unmarshal_total" "ZV.C30.helloRequest"),
+  ("tls keyUpdateMsg.unmarshal", .byType "tls_keyUpdate_unmarshal_total" "ZV.C30.keyUpdate"),
+  ("tls newSessionTicketMsg.unmarshal", .byType "tls_newSessionTicket_unmarshal_total" "ZV.C30.newSessionTicket"),
+  ("tls newSessionTicketMsgTLS13.unmarshal", .byType "tls_newSessionTicketTLS13_unmarshal_total" "ZV.C30.newSessionTicketTLS13"),
+  ("tls serverHelloDoneMsg.unmarshal", .byType "tls_serverHelloDone_unmarshal_total" "ZV.C30.serverHelloDone"),
+  ("tls serverHelloMsg.unmarshal", .byType "tls_serverHello_unmarshal_total" "ZV.C30.serverHello"),
+  ("tls serverKeyExchangeMsg.unmarshal", .byType "tls_serverKeyExchange_unmarshal_total" "ZV.C30.serverKeyExchange"),
+  ("tls sessionState.unmarshal", .byType "tls_sessionState_unmarshal_total" "ZV.C30.sessionState"),
+  ("tls sessionStateTLS13.unmarshal", .byType "tls_sessionStateTLS13_unmarshal_total" "ZV.C30.sessionStateTLS13"),
+  ("x509 Certificate.UnmarshalJSON", .t3 "JSON layer (encoding/json drives it): T3 only"),
+  ("x509 CertificateFingerprint.UnmarshalJSON", .t3 "JSON layer (encoding/json drives it): T3 only"),
+  ("x509 CertificateType.UnmarshalJSON", .t3 "JSON layer (encoding/json drives it): T3 only"),
+  ("x509 ExtendedKeyUsageExtension.UnmarshalJSON", .t3 "JSON layer (encoding/json drives it): T3 only"),
+  ("x509 GeneralNames.UnmarshalJSON", .t3 "JSON layer (encoding/json drives it): T3 only"),
+  ("x509 GeneralSubtreeIP.UnmarshalJSON", .t3 "JSON layer (encoding/json drives it): T3 only"),
+  ("x509 JSONCertificate.UnmarshalJSON", .t3 "JSON layer (encoding/json drives it): T3 only"),
+  ("x509 JSONCertificateWithRaw.ParseRaw", .t3 "JSON layer (encoding/json drives it): T3 only"),
+  ("x509 KeyUsage.UnmarshalJSON", .t3 "JSON layer (encoding/json drives it): T3 only"),
+  ("x509 NameConstraints.UnmarshalJSON", .t3 "JSON layer (encoding/json drives it): T3 only"),
+  ("x509 ParseCRL", .t3 "x509 code around the asn1 engine (extension, name, key post-processing): T3 only"),
+  ("x509 ParseCertificate", .t3 "x509 code around the asn1 engine (extension, name, key post-processing): T3 only"),
+  ("x509 ParseCertificateRequest", .t3 "x509 code around the asn1 engine (extension, name, key post-processing): T3 only"),
+  ("x509 ParseCertificates", .t3 "x509 code around the asn1 engine (extension, name, key post-processing): T3 only"),
+  ("x509 ParseDERCRL", .t3 "x509 code around the asn1 engine (extension, name, key post-processing): T3 only"),
+  ("x509 ParseECPrivateKey", .partly "x509_parseECPrivateKey_post_no_panic" "ZV.Model.C01Ec + ZV.Model.C18" "engine (asn1_unmarshal_no_panic) + post-processing proved; ScalarBaseMult and the optional PublicKey field T3"),
+  ("x509 ParsePKCS1PrivateKey", .t3 "x509 code around the asn1 engine (extension, name, key post-processing): T3 only"),
+  ("x509 ParsePKCS1PublicKey", .t3 "x509 code around the asn1 engine (extension, name, key post-processing): T3 only"),
+  ("x509 ParsePKCS8PrivateKey", .t3 "x509 code around the asn1 engine (extension, name, key post-processing): T3 only"),
+  ("x509 ParsePKIXPublicKey", .partly "selfsig_ed25519_no_panic" "ZV.Model.C01" "Ed25519/X25519 arm only; RSA/DSA/ECDSA arms are modelled in ZV.C20.X.parsePublicKey (T2-tied by C20) without a Lean no-panic theorem"),
+  ("x509 ParseRevocationList", .t3 "x509 code around the asn1 engine (extension, name, key post-processing): T3 only"),
+  ("x509 ParseTBSCertificate", .t3 "x509 code around the asn1 engine (extension, name, key post-processing): T3 only"),
+  ("x509 PublicKeyAlgorithm.UnmarshalJSON", .t3 "JSON layer (encoding/json drives it): T3 only"),
+  ("x509 QCStatements.Parse", .t3 "x509 code around the asn1 engine (extension, name, key post-processing): T3 only"),
+  ("x509 SignatureAlgorithm.UnmarshalJSON", .t3 "JSON layer (encoding/json drives it): T3 only"),
+  ("x509 validity.UnmarshalJSON", .t3 "JSON layer (encoding/json drives it): T3 only"),
+  ("x509/ct DeserializeSCT", .proved "ct_deserializeSCT_no_panic" "ZV.Model.C16"),
+  ("x509/ct DigitallySigned.UnmarshalJSON", .t3 "JSON layer (encoding/json drives it): T3 only"),
+  ("x509/ct SHA256Hash.UnmarshalJSON", .t3 "JSON layer (encoding/json drives it): T3 only"),
+  ("x509/ct UnmarshalDigitallySigned", .proved "ct_unmarshalDigitallySigned_no_panic" "ZV.Model.C16"),
+  ("x509/revocation/google Parse", .proved "crlset_parse_total" "ZV.Model.C01 + ZV.Model.C15 (crlset_parse_no_panic_c15)"),
+  ("x509/revocation/google ZipReader.ReadAt", .t3 "io.ReaderAt adapter over a byte slice: T3 only"),
+  ("x509/revocation/microsoft Parse", .proved "sst_parse_total" "ZV.Model.C01"),
+  ("x509/revocation/mozilla Entry.UnmarshalJSON", .proved "onecrl_entry_no_panic" "ZV.Model.C01"),
+  ("x509/revocation/mozilla Parse", .proved "onecrl_parse_no_panic" "ZV.Model.C01 + ZV.Model.C15 (onecrl_parse_no_panic_c15)"),
+  ("x509/revocation/ocsp ParseRequest", .t3 "OCSP code around the asn1 engine: T3 only"),
+  ("x509/revocation/ocsp ParseResponse", .t3 "OCSP code around the asn1 engine: T3 only"),
+  ("x509/revocation/ocsp ParseResponseForCert", .t3 "OCSP code around the asn1 engine: T3 only")]
+
+/-- every theorem name the table cites exists (elaboration fails otherwise) -/
+def coverTheorems : List Lean.Name := [
+  ``asn1_unmarshal_no_panic,
+  ``cb_readASN1_no_panic,
+  ``cb_readLengthPrefixed_in_bounds,
+  ``cb_read_in_bounds,
+  ``crlset_parse_total,
+  ``ct_deserializeSCT_no_panic,
+  ``ct_readMerkleTreeLeaf_no_panic,
+  ``ct_unmarshalDigitallySigned_no_panic,
+  ``ct_unmarshalPrecertChainArray_no_panic,
+  ``ct_unmarshalX509ChainArray_no_panic,
+  ``onecrl_entry_no_panic,
+  ``onecrl_parse_no_panic,
+  ``selfsig_ed25519_no_panic,
+  ``sst_parse_total,
+  ``tls_certificateRequestTLS13_unmarshal_total,
+  ``tls_certificateRequest_unmarshal_total,
+  ``tls_certificateStatus_unmarshal_total,
+  ``tls_certificateTLS13_unmarshal_total,
+  ``tls_certificateVerify_unmarshal_total,
+  ``tls_certificate_unmarshal_total,
+  ``tls_clientHello_unmarshal_total,
+  ``tls_clientKeyExchange_unmarshal_total,
+  ``tls_encryptedExtensions_unmarshal_total,
+  ``tls_endOfEarlyData_unmarshal_total,
+  ``tls_finished_unmarshal_total,
+  ``tls_helloRequest_unmarshal_total,
+  ``tls_keyUpdate_unmarshal_total,
+  ``tls_newSessionTicketTLS13_unmarshal_total,
+  ``tls_newSessionTicket_unmarshal_total,
+  ``tls_readRecord_no_panic,
+  ``tls_serverHelloDone_unmarshal_total,
+  ``tls_serverHello_unmarshal_total,
+  ``tls_serverKeyExchange_unmarshal_total,
+  ``tls_sessionStateTLS13_unmarshal_total,
+  ``tls_sessionState_unmarshal_total,
+  ``x509_parseECPrivateKey_post_no_panic]
+
+/-- the table lists EXACTLY the entry points the go/ast scan finds in the anchored packages (same order): adding a
+    parser to zcrypto makes this fail until it is accounted for -/
+theorem entrypoints_accounted : coverTable.map (·.1) = Gen.entryPoints := by decide
+
+/-- how many are covered by a theorem (fully / partly / by type) and how many are T3 only -/
+theorem entrypoints_census :
+    (coverTable.filter (fun e => match e.2 with | .proved .. => true | _ => false)).length = 24 ∧
+    (coverTable.filter (fun e => match e.2 with | .partly .. => true | _ => false)).length = 5 ∧
+    (coverTable.filter (fun e => match e.2 with | .byType .. => true | _ => false)).length = 20 ∧
+    (coverTable.filter (fun e => match e.2 with | .t3 .. => true | _ => false)).length = 64 := by decide
 
 end ZV.C01
